@@ -488,3 +488,115 @@ Proof.
     + apply (inv_rebuilt igit (iloc (iw cw) r)). apply Is.
 Qed.
 Print Assumptions cstep_CI.
+
+Lemma crun_CI cap : forall evs cw cw', CI cw -> crun fixed cap cw evs = Some cw' -> CI cw'.
+Proof. induction evs as [|ev t IH]; intros cw cw' I H; cbn [crun] in H; [now inversion H; subst|].
+  destruct (cstep fixed cap cw ev) as [[cw1 o]|] eqn:E; [|discriminate]. eapply IH; [|exact H]. eapply cstep_CI; eauto. Qed.
+
+(* ---------------- C11 ---------------- *)
+
+(* every reachable quiescent state of the repaired code is coherent *)
+Theorem C11_coherent n cap evs cw : crun fixed cap (cw0 n) evs = Some cw ->
+  forall r, r < length (ucs cw) -> quiescent cw r -> coherent cw r.
+Proof. intros H r Lr [Qb Qi]. pose proof (crun_CI cap evs _ _ (CI_cw0 n) H) as I. split.
+  - apply inv_coherent; [apply ksorted_bug_git| |exact Qb].
+    apply (inv_ext _ (gfb (gw cw) r)); [intros e; apply kget_bug_git|]. now apply (ci_bug cw I).
+  - apply inv_coherent; [apply (ci_isorted cw I)| |exact Qi]. now apply (ci_id cw I). Qed.
+Print Assumptions C11_coherent.
+
+(* what a cache serves: the excerpts, the index documents and what Resolve hands out, per entity kind.
+   Listings, known labels, query results, search hits and metadata lookups are functions of the first two
+   (K_C11.answers makes them explicit); resolved state is the third. *)
+Definition bug_served (cw : cworld) (r : nat) (c : sub bgit) (e : nat) := served (gfb (gw cw) r) c e.
+Definition id_served (cw : cworld) (r : nat) (c : sub igit) (k : nat) := served (gfi (iw cw) r) c k.
+
+Theorem C11_views_equal cw r : coherent cw r ->
+  let u := ucache_of cw r in let rb := rebuilt (bug_git cw r) in let ri := rebuilt (id_git cw r) in
+  sx (cb u) = sx rb /\ si (cb u) = si rb /\ (forall e, bug_served cw r (cb u) e = bug_served cw r rb e) /\
+  sx (ci u) = sx ri /\ si (ci u) = si ri /\ (forall k, id_served cw r (ci u) k = id_served cw r ri k).
+Proof. intros [Hb Hi] u rb ri. destruct (coherent_served bgit _ _ Hb) as (A & B & C). destruct (coherent_served igit _ _ Hi) as (D & E & F).
+  split; [exact A|]. split; [exact B|]. split; [|split; [exact D|split; [exact E|exact F]]].
+  intros e. unfold bug_served. specialize (C e). unfold served in *. rewrite kget_bug_git in C. exact C. Qed.
+Print Assumptions C11_views_equal.
+
+Corollary C11_any_view cw r (X : Type) (F : kmap (ment bgit) -> kmap (ment bgit) -> kmap (ment igit) -> kmap (ment igit) -> X) : coherent cw r ->
+  let u := ucache_of cw r in
+  F (sx (cb u)) (si (cb u)) (sx (ci u)) (si (ci u)) =
+  F (rebuild (bug_git cw r)) (rebuild (bug_git cw r)) (rebuild (id_git cw r)) (rebuild (id_git cw r)).
+Proof. intros H u. destruct (C11_views_equal cw r H) as (A & B & _ & D & E & _). cbn in A, B, D, E. unfold u. now rewrite A, B, D, E. Qed.
+
+(* after a pull (as after anything else) every bug and identity the replica has, new or updated, is listed,
+   searchable and resolvable with exactly its merged state, without a rebuild *)
+Theorem C11_pull_visible n cap evs r ims bms cw : crun fixed cap (cw0 n) (evs ++ [VPull r ims bms]) = Some cw ->
+  r < length (ucs cw) -> quiescent cw r ->
+  (forall e b, gfb (gw cw) r e = Some b ->
+     kget e (sx (cb (ucache_of cw r))) = Some (clean b) /\ kget e (si (cb (ucache_of cw r))) = Some (clean b) /\
+     bug_served cw r (cb (ucache_of cw r)) e = Some (clean b)) /\
+  (forall k l, gfi (iw cw) r k = Some l ->
+     kget k (sx (ci (ucache_of cw r))) = Some (clean l) /\ id_served cw r (ci (ucache_of cw r)) k = Some (clean l)).
+Proof. intros H Lr Q. pose proof (C11_coherent n cap _ cw H r Lr Q) as C. destruct (C11_views_equal cw r C) as (A & B & S & D & E & T). split.
+  - intros e b G. rewrite A, B, S. unfold bug_served, served, rebuilt, rebuild. cbn [sx si sl]. rewrite !kget_kmapv, kget_bug_git, G. cbn. auto.
+  - intros k l G. rewrite D, T. unfold id_served, served, rebuilt, rebuild. cbn [sx si sl]. rewrite !kget_kmapv. unfold id_git. unfold gfi in G. rewrite G. cbn. auto. Qed.
+Print Assumptions C11_pull_visible.
+
+(* a loaded bug is always the one its ref points to, with exactly the operations read from it:
+   the next commit made through the cache has the merged head as parent *)
+Theorem C11_edit_after_merge_builds_on_merge n cap evs cw : crun fixed cap (cw0 n) evs = Some cw ->
+  forall r, r < length (ucs cw) -> forall e m, kget e (sl (cb (ucache_of cw r))) = Some m ->
+  gfb (gw cw) r e = Some (m_base m) /\ alookup e (locals (ww (gw cw)) r) = Some (fst (m_base m)).
+Proof. intros H r Lr e m Em. pose proof (crun_CI cap evs _ _ (CI_cw0 n) H) as I.
+  pose proof (inv_sl _ _ _ (ci_bug cw I r Lr) e m Em) as G. split; [exact G|].
+  unfold gfb in G. destruct (alookup e (locals (ww (gw cw)) r)) as [h|]; [|discriminate]. cbn in G. inversion G. reflexivity. Qed.
+Print Assumptions C11_edit_after_merge_builds_on_merge.
+
+(* ---------------- the code as found: concrete sessions ending in a quiescent, incoherent state ---------------- *)
+Definition quiescentb_at (cw : cworld) (r : nat) : bool := quiescentb (cb (ucache_of cw r)) && quiescentb (ci (ucache_of cw r)).
+Lemma quiescentb_at_spec cw r : quiescentb_at cw r = true -> quiescent cw r.
+Proof. unfold quiescentb_at. intros H. apply andb_true_iff in H as [A B]. split; now apply quiescentb_spec. Qed.
+
+Definition refuted (V : variant) (cap : nat) : Prop :=
+  exists evs cw r, crun V cap (cw0 2) evs = Some cw /\ r < length (ucs cw) /\ quiescent cw r /\ ~ coherent cw r.
+
+(* user 0 creates a bug and pushes; user 1 pulls it: the new bug has no index document *)
+Definition witness_index : list cev :=
+  [VIdNew 0 0 1%N; VNew 0 10%N 1%N [100%N]; VPush 0; VIdNew 1 1 2%N; VPull 1 [0] [(0, 0%N, 0%N)]].
+Theorem index_on_merge_refuted :
+  refuted {| v_index_merged := false; v_ident_updated := true; v_merge_result := true; v_keep_newest := true |} 2.
+Proof. exists witness_index. eexists. exists 1. split; [vm_compute; reflexivity|]. split; [cbn; lia|]. split; [apply quiescentb_at_spec; vm_compute; reflexivity|].
+  intros [(_ & Hi & _) _]. vm_compute in Hi. discriminate. Qed.
+
+(* user 0 renames himself after user 1 got his identity: user 1's next pull moves the ref but not the cache *)
+Definition witness_identity : list cev :=
+  [VIdNew 0 0 1%N; VPush 0; VIdNew 1 1 2%N; VPull 1 [0] []; VIdUpd 0 0 3%N; VPush 0; VPull 1 [0] []].
+Theorem identity_merge_refuted :
+  refuted {| v_index_merged := true; v_ident_updated := false; v_merge_result := true; v_keep_newest := true |} 2.
+Proof. exists witness_identity. eexists. exists 1. split; [vm_compute; reflexivity|]. split; [cbn; lia|]. split; [apply quiescentb_at_spec; vm_compute; reflexivity|].
+  intros [_ (Hx & _)]. vm_compute in Hx. discriminate. Qed.
+
+(* both users edit the same bug; the pull that writes the merge commit leaves the pre-merge entity loaded *)
+Definition witness_merge : list cev :=
+  [VIdNew 0 0 1%N; VNew 0 10%N 1%N [100%N]; VPush 0; VIdNew 1 1 2%N; VPull 1 [0] [(0, 0%N, 0%N)];
+   VResolve 0 0; VStage 0 0 101%N; VCommit 0 0 11%N 1%N; VPush 0;
+   VResolve 1 0; VStage 1 0 201%N; VCommit 1 0 12%N 2%N; VPull 1 [0] [(0, 13%N, 2%N)]].
+Theorem merge_result_refuted :
+  refuted {| v_index_merged := true; v_ident_updated := true; v_merge_result := false; v_keep_newest := true |} 2.
+Proof. exists witness_merge. eexists. exists 1. split; [vm_compute; reflexivity|]. split; [cbn; lia|]. split; [apply quiescentb_at_spec; vm_compute; reflexivity|].
+  intros [(Hx & _) _]. vm_compute in Hx. discriminate. Qed.
+
+(* capacity 1, the only loaded bug has a staged operation: the bug created next is evicted before its excerpt is written *)
+Definition witness_evict : list cev :=
+  [VIdNew 0 0 1%N; VNew 0 10%N 1%N [100%N]; VResolve 0 0; VStage 0 0 101%N; VNew 0 11%N 1%N [102%N]; VCommit 0 0 12%N 1%N].
+Theorem evict_newest_refuted :
+  refuted {| v_index_merged := true; v_ident_updated := true; v_merge_result := true; v_keep_newest := false |} 1.
+Proof. exists witness_evict. eexists. exists 0. split; [vm_compute; reflexivity|]. split; [cbn; lia|]. split; [apply quiescentb_at_spec; vm_compute; reflexivity|].
+  intros [(Hx & _) _]. vm_compute in Hx. discriminate. Qed.
+
+(* non-vacuity: the same four sessions run to the end under the repaired code (and are then coherent by C11_coherent);
+   in the third one the edit made after the merge is a child of the merge commit and the bug reads with both users' operations *)
+Example witnesses_run_fixed :
+  (exists cw, crun fixed 2 (cw0 2) witness_index = Some cw) /\ (exists cw, crun fixed 2 (cw0 2) witness_identity = Some cw) /\
+  (exists cw, crun fixed 1 (cw0 2) witness_evict = Some cw) /\
+  (exists cw, crun fixed 2 (cw0 2) (witness_merge ++ [VResolve 1 0; VStage 1 0 202%N; VCommit 1 0 14%N 2%N]) = Some cw /\
+              quiescentb_at cw 1 = true /\
+              gfb (gw cw) 1 0 = Some (4, [100%N; 101%N; 201%N; 202%N]) /\ parents (st (ww (gw cw))) 4 = [3] /\ parents (st (ww (gw cw))) 3 = [2; 1]).
+Proof. repeat split; try (eexists; vm_compute; reflexivity). eexists. split; [vm_compute; reflexivity|]. repeat split; vm_compute; reflexivity. Qed.
